@@ -202,3 +202,30 @@ c.setup(_setup)
 c.ensures('as-last-reported', "len(result[1]) == 1 and result[1][0].get_name() == ghost('last_label') and result[1][0].get_group() == ghost('last_group') "
           "and result[1][0].get_location() == ghost('last_location')")
 c.ensures('seen-again-means-born-again', 'result[1][0]._birth >= result[2]')
+
+
+# ---- round 9 (C01): an action on a group / location is the same action on each of ITS members - also when a group and a location
+#      share a name and are addressed one after the other in one run (a per-run memo of member lists keyed by the name alone would
+#      hand the group's lights to the location)
+c = contract(M, 'group_then_location_of_the_same_name', serves=['C01'],
+             name='lemma:set group N; set location N; off location N; on group N (same name, different members)', src='''
+def group_then_location_of_the_same_name(self):
+    self._color_group()
+    self._color_location()
+    self._power_location()
+    self._power_group()
+''')
+def _setup(b, case):
+    i1, i2 = lib.device(b, 'dev1', fail=False), lib.device(b, 'dev2', fail=False)
+    l1, l2 = lib.lifx_light(b, 'plain', i1, 'a'), lib.lifx_light(b, 'plain', i2, 'b')
+    ls = lib.light_set_with(b, {'a': l1, 'b': l2}, groups={'N': ['a']}, locations={'N': ['b']})
+    m = lib.machine(b, 'LOGICAL', ls)
+    lib.sym_regs(b, m, 'real', ('hue', 'saturation', 'brightness', 'kelvin', 'duration'))
+    m.attrs['_reg'].attrs['name'] = 'N'
+    m.attrs['_reg'].attrs['power'] = True
+    return {'self': m, '_i1': i1, '_i2': i2}
+c.setup(_setup)
+c.define('D', "ghost('Dev')")
+c.ensures('each-command-reaches-the-members-of-the-set-it-names',
+          "len(D) == 4 and same(D[0][0], _i1) and D[0][1] == 'set_color' and same(D[1][0], _i2) and D[1][1] == 'set_color' "
+          "and same(D[2][0], _i2) and D[2][1] == 'set_power' and same(D[3][0], _i1) and D[3][1] == 'set_power'")
